@@ -46,6 +46,8 @@ PARTIAL = [
     "numeric content of an explicitly ASSIGNED argvals_stand (class and numbers of points only); the computed one is modelled "
     "exactly for dense grids (`normalizeGrid`), irregular data: oracle only (extremes over all observations)",
     "dimension of an empty irregular dataset (n_dimension raises StopIteration; mirrored, not judged)",
+    "degenerate SAMPLING POINTS: grids with no point (the normalisation raises ValueError on the empty minimum) and argvals with "
+    "no dimension at all are not generated; degenerate VALUES (0-d, (1,), (1, 1), empty) are swept against every admissible grid",
 ]
 EXHAUSTIVE = {"quick": False, "thorough": True}
 
@@ -1197,6 +1199,78 @@ def _scale_cases():
         yield dict(kind="seq", start="scale", ops=[["mkI"] + a_irreg([(0, [2, 3], 1 + t), (1, [3, 2], 2 + t)]) + v_irreg([(0, [2, 3], 0), (1, [3, 2], 1)]), ["gi", "1"]])
 
 
+def _cancel_cases():
+    """In every run: every multi-operand guard with THREE or more operands whose deviations cancel / compensate (numbers of
+    observations 3, 2, 4 around 3; 1 and 5 next to 3; sizes of grids), operands in every order, dense and irregular mixed."""
+    def dn(n, tag=0):
+        return ["D"] + a_dense([3], 1) + v_dense(list(range(tag, tag + n)), [3])
+
+    def ir(n, tag=0):
+        obs = [(l, [2 + l % 3], l) for l in range(n)]
+        return ["I"] + a_irreg(obs) + v_irreg([(l, sh, tag + l) for l, sh, _ in obs])
+
+    def comps(ns, flip=0):
+        return [t for j, n in enumerate(ns) for t in ((dn, ir)[(j + flip) % 2](n, 10 * j))]
+
+    tuples = []
+    for base in ((3, 2, 4), (3, 1, 5), (3, 3, 3), (2, 2, 5), (0, 1, 2), (3, 0, 6)):
+        tuples += sorted(set(itertools.permutations(base)))
+    tuples += [(3, 2, 4, 3), (3, 4, 3, 2), (3, 1, 2, 6), (2, 3, 3, 4), (3, 5, 1, 3, 3), (3, 3, 3, 3), (1, 0, 2, 1)]
+    for ns in tuples:
+        for flip in (0, 1):
+            yield dict(kind="seq", start="cancel", ops=[["mkM", str(len(ns))] + comps(ns, flip), ["gs", "N", "N", "N"]])
+    # extend / concatenate / append on an existing object (3 observations): wrong items that average to the good value
+    for flip in (0, 1):
+        start = ["mkM", "2"] + comps((3, 3), flip)
+        for ns in ((1, 5), (5, 1), (2, 4), (4, 2), (3, 3), (0, 6), (1, 3, 5), (5, 3, 1), (3, 1, 5), (2, 3, 4), (4, 4, 1), (3, 2), (3, 3, 2, 4)):
+            yield dict(kind="seq", start="cancel", ops=[start, ["ext", str(len(ns))] + comps(ns, flip), ["app"] + comps(ns[:1]),
+                                                        ["ins", "1"] + comps(ns[-1:], 1), ["gs", "N", "N", "N"]])
+        one = ["mkM", "1"] + comps((3,), flip)
+        for ns in ((1, 5), (5, 1), (2, 4), (3, 3)):
+            yield dict(kind="seq", start="cancel", ops=[one, ["ext", str(len(ns))] + comps(ns, flip), ["gs", "N", "N", "N"]])
+    # concatenation of several pieces whose grid sizes / numbers of components compensate
+    for sizes in sorted(set(itertools.permutations((3, 2, 4)))) + [(3, 3, 3), (1, 5, 3)]:
+        others = [t for j, m in enumerate(sizes) for t in ["U", "D"] + a_dense([m], 1) + v_dense([20 + j], [m])]
+        yield dict(kind="seq", start="cancel", ops=[START["dense"], ["cat", str(len(sizes))] + others])
+        others2 = [t for j, m in enumerate(sizes) for t in ["U", "D"] + a_dense([m, 6 - m], 1) + v_dense([20 + j], [m, 6 - m])]
+        yield dict(kind="seq", start="cancel", ops=[["mkD"] + a_dense([3, 3], 1) + v_dense([0, 1], [3, 3]), ["cat", str(len(sizes))] + others2])
+    for ks in ((2, 1, 3), (1, 3, 2), (3, 1, 2), (2, 2, 2), (1, 3)):
+        others = [t for k in ks for t in ["M", str(k)] + comps((1,) * k)]
+        yield dict(kind="seq", start="cancel", ops=[["mkM", "2"] + comps((2, 2)), ["cat", str(len(ks))] + others])
+    # sampling points and values whose sizes are a permutation of one another (same total)
+    for perm in sorted(set(itertools.permutations((3, 2, 4)))):
+        ia = a_irreg([(l, [m], l) for l, m in enumerate((3, 2, 4))])
+        iv = v_irreg([(l, [m], l) for l, m in enumerate(perm)])
+        yield dict(kind="seq", start="cancel", ops=[["mkI"] + ia + iv, START["irreg"], ["setV"] + iv,
+                                                    ["setA"] + a_irreg([(l, [m], 3) for l, m in enumerate(perm)]),
+                                                    ["setS"] + a_irreg([(l, [m], 3) for l, m in enumerate(perm)])])
+
+
+_DEGENERATE = [[], [1], [1, 1], [0], [2], [1, 2], [2, 1]]
+
+
+def _degenerate_cases():
+    """In every run: degenerate array shapes (0-d, (1,), (1, 1), empty, and their neighbours) as sampling points and as values,
+    through the constructors and the setters of dense and irregular data and as components."""
+    for pa in _DEGENERATE:
+        if not pa or 0 in pa:
+            continue            # sampling points need at least one dimension and one point (PARTIAL)
+        for sv in _DEGENERATE:
+            ia, iv = a_irreg([(0, pa, 1)]), v_irreg([(0, sv, 0)])
+            ia2, iv2 = a_irreg([(0, [3], 1), (1, pa, 1)]), v_irreg([(0, [3], 0), (1, sv, 1)])
+            yield dict(kind="seq", start="degenerate", ops=[["mkI"] + ia + iv, ["mkI"] + ia2 + iv2,
+                                                          ["mkD"] + a_dense(pa, 1) + v_dense([0, 1], sv)])
+            if pa == sv and 0 not in pa:
+                continue
+            sv_ok = bool(sv) and 0 not in sv
+            for st_a, st_v in ((ia, v_irreg([(0, pa, 0)])),) + (((a_irreg([(0, sv, 1)]), iv),) if sv_ok else ()):
+                yield dict(kind="seq", start="degenerate", ops=[["mkI"] + st_a + st_v, ["setV"] + iv, ["setA"] + ia, ["setS"] + ia,
+                                                              ["gs", "N", "N", "N"]])
+            yield dict(kind="seq", start="degenerate", ops=[["mkD"] + a_dense(pa, 1) + v_dense([0, 1], pa), ["setV"] + v_dense([2, 3], sv)]
+                       + ([["setA"] + a_dense(sv, 2), ["setS"] + a_dense(sv, 2)] if sv_ok else []) + [["gi", "0"]])
+            yield dict(kind="seq", start="degenerate", ops=[["mkM", "2", "I"] + ia + iv + ["D"] + a_dense(pa, 1) + v_dense([0], sv)])
+
+
 def _alias_cases():
     """In every run: an operation that returns data, then legal setter calls on the RESULT; the operand must stay as it was."""
     d, i = START["dense"], START["irreg"]
@@ -1509,6 +1583,8 @@ def gen_cases(rng: Rng, tier):
     cases += list(_alias_cases())
     cases += list(_dimname_cases())
     cases += list(_scale_cases())
+    cases += list(_cancel_cases())
+    cases += list(_degenerate_cases())
     cases += list(_api_cases())
     cases += list(_ctorargs_cases())
     cases += list(_xop_cases(rng, 120 if tier == "quick" else 1500))
